@@ -457,11 +457,15 @@ func c20GenCoexist(rng *vh.Rand) *c20Case {
 		c.Chunks = append(c.Chunks, vh.Hex(d))
 	}
 	add := func(p, kind string, data []byte) { c.Tree = append(c.Tree, fsEnt{Path: p, Kind: kind, Data: data}) }
+	prefixes := map[string]int{}
+	for i := 0; i < k; i++ {
+		prefixes[sha256Hex(vh.UnHex(c.Chunks[i]))[:4]]++
+	}
 	for i := 0; i < k; i++ {
 		data := vh.UnHex(c.Chunks[i])
 		sum := sha256.Sum256(data)
 		idh := hex.EncodeToString(sum[:])
-		if rng.Chance(1, 12) { // a file where the directory should be
+		if rng.Chance(1, 12) && prefixes[idh[:4]] == 1 { // a file where the directory should be
 			add(idh[:4], "f", []byte("not a directory"))
 			continue
 		}
